@@ -4,6 +4,7 @@ import (
 	"fmt"
 	"go/constant"
 	"go/token"
+	"go/types"
 	"sort"
 	"strings"
 
@@ -27,19 +28,41 @@ func checkC02(c *Ctx) {
 	// ---- C02.1
 	r.Rule("C02.1", "only Valid registrations of the requested phantom are handed to connection matching", 2)
 	if f := c.fn("C02.1", "pkg/station/lib", "RegisteredDecoys", "getRegistrations"); f != nil {
-		var ret *ssa.Return
-		eachInstr(f, func(in ssa.Instruction) {
-			if x, ok := in.(*ssa.Return); ok {
-				ret = x
+		// every return hands out a map built in this call (never a stored / memoised set: expiry, removal and
+		// invalidation act on r.decoys, and only a per-call filter over r.decoys observes them)
+		fresh := map[ssa.Value]bool{}
+		var isFresh func(v ssa.Value, d int) bool
+		isFresh = func(v ssa.Value, d int) bool {
+			if d > 6 {
+				return false
 			}
+			switch x := v.(type) {
+			case *ssa.MakeMap:
+				fresh[x] = true
+				return true
+			case *ssa.Phi:
+				for _, e := range x.Edges {
+					if !isFresh(e, d+1) {
+						return false
+					}
+				}
+				return len(x.Edges) > 0
+			}
+			return false
+		}
+		eachInstr(f, func(in ssa.Instruction) {
+			ret, ok := in.(*ssa.Return)
+			if !ok || len(ret.Results) == 0 || in.Block().Comment == "recover" {
+				return
+			}
+			rv := returnedValue(ret, 0, nil)
+			r.Check(isFresh(rv, 0), "C02.1", "getRegistrations: the returned set is built in this call", in.Pos(), fnName(f), "make(map) in the same call",
+				"getRegistrations returns "+firstN(pathOf(rv), 60)+", a set that was not computed in this call from the live table: a registration that expired, was removed or lost its Valid flag since that set was built is still offered to connection matching")
 		})
 		n := 0
 		eachInstr(f, func(in ssa.Instruction) {
 			mu, ok := in.(*ssa.MapUpdate)
-			if !ok {
-				return
-			}
-			if ret == nil || returnedValue(ret, 0, nil) != mu.Map && pathOf(returnedValue(ret, 0, nil)) != pathOf(mu.Map) {
+			if !ok || !fresh[mu.Map] {
 				return
 			}
 			n++
@@ -48,21 +71,17 @@ func checkC02(c *Ctx) {
 			src := strings.Contains(vp, "range(r.decoys[darkDecoyAddr.String()]") || strings.Contains(vp, "r.decoys[darkDecoyAddr.String()]")
 			r.Check(g && src, "C02.1", "getRegistrations: a registration is copied out only if its own Valid flag is set, from the requested phantom's map", in.Pos(), fnName(f), "guarded by "+firstN(vp, 60)+".Valid",
 				"registrations that are not (yet) validated, or that belong to another phantom address, become visible to connection matching: a client can open a tunnel on a registration whose covert/liveness checks have not passed, or a tag replayed against another phantom is accepted")
-		})
-		if n == 0 {
-			r.Unk("C02.1", "getRegistrations: copy into the returned map", f.Pos(), fnName(f), "no map insert found")
-		}
-		// key preserved
-		eachInstr(f, func(in ssa.Instruction) {
-			if mu, ok := in.(*ssa.MapUpdate); ok {
-				kp, vp := pathOf(mu.Key), pathOf(mu.Value)
-				if strings.HasSuffix(kp, "#1") && strings.HasSuffix(vp, "#2") && strings.TrimSuffix(kp, "#1") == strings.TrimSuffix(vp, "#2") {
-					r.OK("C02.1", "getRegistrations: copied under its own identifier", in.Pos(), "key and value from the same iteration")
-				} else {
-					r.Bad("C02.1", "getRegistrations: registration copied under a different key", in.Pos(), fnName(f), "a registration is handed out under an identifier other than its own: a tag for one registration matches another")
-				}
+			// key preserved
+			kp := pathOf(mu.Key)
+			if strings.HasSuffix(kp, "#1") && strings.HasSuffix(vp, "#2") && strings.TrimSuffix(kp, "#1") == strings.TrimSuffix(vp, "#2") {
+				r.OK("C02.1", "getRegistrations: copied under its own identifier", in.Pos(), "key and value from the same iteration")
+			} else {
+				r.Bad("C02.1", "getRegistrations: registration copied under a different key", in.Pos(), fnName(f), "a registration is handed out under an identifier other than its own: a tag for one registration matches another")
 			}
 		})
+		if n == 0 {
+			r.Unk("C02.1", "getRegistrations: copy into the returned map", f.Pos(), fnName(f), "no map insert into the returned map found")
+		}
 	}
 	// ---- C02.2
 	r.Rule("C02.2", "the manager hands out exactly what the visibility filter produced", 1)
@@ -97,7 +116,9 @@ func checkC02(c *Ctx) {
 		return nil
 	}
 	for _, f := range tfns {
-		for _, ci := range callsIn(f, func(_ string, cc *ssa.CallCommon) bool { return cc.IsInvoke() && cc.Method.Name() == "GetRegistrations" }) {
+		for _, ci := range callsIn(f, func(_ string, cc *ssa.CallCommon) bool {
+			return cc.IsInvoke() && cc.Method.Name() == "GetRegistrations"
+		}) {
 			a := ci.Common().Args[0]
 			p := ipParam(f)
 			r.Check(p != nil && a == ssa.Value(p), "C02.3", fnName(f)+": GetRegistrations(<phantom parameter>)", ci.Pos(), fnName(f), pathOf(a),
@@ -163,7 +184,9 @@ func checkC02(c *Ctx) {
 				if cst, isC := rv.(*ssa.Const); isC && cst.Value == nil {
 					return
 				}
-				g := guardedM(f, ret, func(cnd string, pol bool) bool { return !pol && strings.HasPrefix(cnd, "(-1 == ") && strings.Contains(cnd, "findMarkMac(") })
+				g := guardedM(f, ret, func(cnd string, pol bool) bool {
+					return !pol && strings.HasPrefix(cnd, "(-1 == ") && strings.Contains(cnd, "findMarkMac(")
+				})
 				// the mark derives from the keys of the returned registration and the presented representative
 				okMark := false
 				for _, ci := range callsIn(f, shortIs("generateMark")) {
@@ -200,6 +223,9 @@ func checkC02(c *Ctx) {
 			})
 		}
 	}
+	// obfs4 has no tag to look a registration up by: it tries the handshake against candidates. Candidates must be
+	// restricted to obfs4 registrations, since the obfs4 keys can be derived for ANY registration's shared secret.
+	checkObfs4Candidates(c)
 	if f := c.fn("C02.4", "pkg/transports/wrapping/prefix", "Transport", "tryFindReg"); f != nil {
 		n := 0
 		eachInstr(f, func(in ssa.Instruction) {
@@ -345,4 +371,91 @@ func reachesGetRegs(f *ssa.Function, seen map[*ssa.Function]bool) bool {
 		}
 	})
 	return found
+}
+
+// checkObfs4Candidates: in the obfs4 station package, every element of GetRegistrations(...) that flows onward
+// (appended, passed, returned) is dominated by a discriminator that only obfs4 registrations satisfy:
+// len(identifier) == ntor.PublicKeyLength+ntor.NodeIDLength, elem.TransportType() == Obfs4, or a successful
+// type assertion of its keys to Obfs4Keys.
+func checkObfs4Candidates(c *Ctx) {
+	r := c.R
+	const pkg = "pkg/transports/wrapping/obfs4"
+	idLen := ""
+	if a, ok1 := constIntOfPkg(c.P, "github.com/refraction-networking/obfs4/common/ntor", "PublicKeyLength"); ok1 {
+		if b, ok2 := constIntOfPkg(c.P, "github.com/refraction-networking/obfs4/common/ntor", "NodeIDLength"); ok2 {
+			idLen = fmt.Sprint(a + b)
+		}
+	}
+	obfsT := constIntOf(c.P, repoMod+"/proto", "TransportType_Obfs4")
+	n := 0
+	for _, f := range c.funcsOfPkgs(pkg) {
+		for _, ci := range callsIn(f, shortIs("GetRegistrations")) {
+			call, ok := ci.(*ssa.Call)
+			if !ok {
+				continue
+			}
+			base := "next(range(" + pathOf(call) + "))"
+			keyP, valP := base+"#1", base+"#2"
+			match := func(cond string, pol bool) bool {
+				a := Atom{cond, pol}
+				switch {
+				case idLen != "" && a.Pol && a.Cond == "("+orderEq(idLen, "len("+keyP+")")+")":
+					return true
+				case obfsT != "" && a.Pol && a.Cond == "("+orderEq(obfsT, valP+".TransportType()")+")":
+					return true
+				case a.Pol && strings.HasPrefix(a.Cond, valP+".TransportKeys().(") && strings.Contains(a.Cond, "Obfs4Keys)#1"):
+					return true
+				}
+				return false
+			}
+			eachInstr(f, func(in ssa.Instruction) {
+				uses := false
+				switch x := in.(type) {
+				case *ssa.Store:
+					uses = pathOf(x.Val) == valP
+				case ssa.CallInstruction:
+					for _, a := range x.Common().Args {
+						if pathOf(a) == valP {
+							uses = true
+						}
+					}
+				case *ssa.Return:
+					for _, a := range x.Results {
+						if pathOf(a) == valP {
+							uses = true
+						}
+					}
+				case *ssa.MapUpdate:
+					uses = pathOf(x.Value) == valP
+				case *ssa.Send:
+					uses = pathOf(x.X) == valP
+				}
+				if !uses {
+					return
+				}
+				n++
+				g := guardedM(f, in, match)
+				r.Check(g, "C02.4", fnName(f)+": only obfs4 registrations become handshake candidates", in.Pos(), fnName(f), "dominated by len(identifier)=="+idLen+" / TransportType()==Obfs4 / keys.(Obfs4Keys)",
+					"a registration of the phantom is tried as an obfs4 candidate without a test that it IS an obfs4 registration: obfs4 keys can be derived from any registration's shared secret, so an obfs4 first flight built from a min/prefix/dtls registration's secret is matched to that registration")
+			})
+		}
+	}
+	if n == 0 {
+		r.Unk("C02.4", "obfs4: candidate selection", token.NoPos, pkg, "no use of GetRegistrations elements found in the obfs4 package")
+	}
+}
+
+// constIntOfPkg returns an integer constant of any loaded package (dependencies included).
+func constIntOfPkg(p *Program, pkgPath, name string) (int64, bool) {
+	for _, pk := range p.Prog.AllPackages() {
+		if pk.Pkg.Path() != pkgPath {
+			continue
+		}
+		if cst, ok := pk.Pkg.Scope().Lookup(name).(*types.Const); ok {
+			if v, ok := constant.Int64Val(constant.ToInt(cst.Val())); ok {
+				return v, true
+			}
+		}
+	}
+	return 0, false
 }
